@@ -514,3 +514,46 @@ class ModelOracle:
     def on_end(self, R, stats):
         for k, v in self.mex.probes().items():
             R.probe("m_" + k, v)
+
+
+class AdmissibilityOracle:
+    """C08, second sentence, judged independently of the executor's own assertions: every decision of a shipped
+    scheduler is checked against the state the scheduler saw."""
+
+    def on_round(self, R, s, rd):
+        ex = s.executor
+        t = rd["tick"]
+        n = ex.num_pools
+        seen_ops = {}
+        use = [[0.0, 0.0] for _ in range(n)]
+        for a in rd["asg"]:
+            if not (isinstance(a.pool_id, int) and 0 <= a.pool_id < n):
+                raise Violation("C08.inadmissible.pool", {"pool": a.pool_id, "pipeline": a.pipeline_id}, t)
+            use[a.pool_id][0] += a.cpu
+            use[a.pool_id][1] += a.ram
+            if not ex.pools[a.pool_id].multi_operator_containers and len(a.ops) != 1:
+                # (known finding D3 surfaces as the executor's assertion; reported there with its exact signature)
+                continue
+            for k, o in enumerate(a.ops):
+                if id(o) in seen_ops:
+                    raise Violation("C08.inadmissible.assigned_twice", {"op": R.okey(o), "pipeline": a.pipeline_id}, t)
+                seen_ops[id(o)] = True
+                if id(o) not in rd["pre_ready"].get(o.pipeline.pipeline_id, ()):
+                    # not ready before the round: admissible only behind its unfinished parents in the same container
+                    st = o.pipeline.runtime_status().operator_states
+                    for q in o.parents:
+                        if st[q].value != "completed" and q not in a.ops[:k]:
+                            raise Violation("C08.inadmissible.dependency_order", {"op": R.okey(o), "parent": R.okey(q),
+                                                                                  "parent_state": st[q].value}, t)
+        for i in range(n):
+            pre_cpu, pre_ram = rd["pre"][i]
+            if use[i][0] > pre_cpu * (1 + 1e-9) + 1e-12:
+                raise Violation("C08.inadmissible.oversold_cpu", {"pool": i, "requested": use[i][0], "free": pre_cpu}, t)
+            if not ex.pools[i].allow_memory_overcommit and use[i][1] > pre_ram * (1 + 1e-9) + 1e-12:
+                raise Violation("C08.inadmissible.oversold_ram", {"pool": i, "requested": use[i][1], "free": pre_ram}, t)
+        seen = set()
+        for su in rd["sus"]:
+            cs = rd["cansusp"].get(su.container_id)
+            if cs is None or not cs[0] or cs[2] != su.pool_id or su.container_id in seen:
+                raise Violation("C08.inadmissible.suspension", {"container": su.container_id, "pool": su.pool_id}, t)
+            seen.add(su.container_id)
